@@ -586,3 +586,17 @@ func writeReplay(id string, v Violation) string {
 	os.WriteFile(path, append(b, '\n'), 0o644)
 	return path
 }
+
+// DebugUnit runs the first unit whose name contains sub in this process and prints its result.
+func DebugUnit(id, sub, tier string, seed int64) {
+	ck := Lookup(id)
+	for i, u := range ck.Units(tier, seed) {
+		if strings.Contains(u.Name, sub) {
+			res := RunUnit(u, i, tier, seed, time.Now().Add(10*time.Minute))
+			b, _ := json.MarshalIndent(res, "", " ")
+			fmt.Println(string(b))
+			return
+		}
+	}
+	fmt.Println("no such unit")
+}
